@@ -1010,7 +1010,7 @@ def ilv_repro(ic):
 
 def gen_ilv_cases(thorough):
     out = []
-    L = 6 if thorough else 5
+    L = 7 if thorough else 6
     strings = gen_ilv_strings(L, 4 if thorough else 3)
     for lib in ("mlib", "clib"):
         for ops in strings:
@@ -1018,10 +1018,10 @@ def gen_ilv_cases(thorough):
         # write buffer variants and the reversed pool order on the shorter strings
         for buf in ("large", "zero"):
             for ops in strings:
-                if len(ops) <= (5 if thorough else 4):
+                if len(ops) <= L - 1:
                     out.append({"lib": lib, "ops": ops, "buf": buf})
         for ops in strings:
-            if len(ops) <= (5 if thorough else 4):
+            if len(ops) <= L - 1:
                 out.append({"lib": lib, "ops": ops, "buf": "default", "rev": True})
     return out
 
@@ -1363,7 +1363,7 @@ def run(ctx):
         "bounded-exhaustive small-scope grammar: every field value alone and every pair of values of two different "
         "fields (atom, bond, molecule/ensemble records, coordinates/charges/weights value classes, conformer count), "
         "every shape 0..3 atoms x 0..3 bonds x 0..3 conformers, Conformer views, every put/read order of 1..3 objects "
-        "x handles x sessions, every string of {put, get of any stored key, contains/keys/len} up to length 5 (thorough 6) inside one writing session followed by a full read-back in the same session / a new session / a new handle, get / mutate the retrieved object in place / get again over 6 retrieval routes and 2 write-side routes; each case written to and read from real v2 and v1 MoleculeLibrary/ConformerLibrary files "
+        "x handles x sessions, every string of {put, get of any stored key, contains/keys/len} up to length 6 (thorough 7) inside one writing session, 3 write-buffer settings, followed by a full read-back in the same session / a new session / a new handle, get / mutate the retrieved object in place / get again over 6 retrieval routes and 2 write-side routes; each case written to and read from real v2 and v1 MoleculeLibrary/ConformerLibrary files "
         "and compared field by field with a snapshot taken by the harness's own walker; a case is non-trivial when the "
         "object has >= 1 atom and >= 1 field differs from the constructor defaults (or >= 2 objects for sequences)"
     )
